@@ -142,7 +142,8 @@ fn clip_outcode_matches_planes() {
 #[kani::unwind(8)]
 fn clip_outcode_contract() {
     let p: ClipVec = [kani::any(), kani::any(), kani::any(), kani::any()].into();
-    let _ = outcode(&p);
+    let r = outcode(&p);
+    assert!(spec_outcode_ok(&p, r)); // explicit, for native replay
 }
 
 // @ob props=C03,C02 tier=quick kind=P cfg=core-std timeout=600
